@@ -26,7 +26,7 @@ func main() {
 			SigningPeriod: uint64(sim.Pick(r, []int{1, 2, 3, 3, 6})), MaxAttempts: uint64(sim.Pick(r, []int{1, 2, 3, 5})),
 			FeePerSigner: sdk.NewCoins(sdk.NewInt64Coin("uband", 10)),
 			Blocks:       120, PSubmit: sim.Pick(r, []int{25, 50, 80, 100}), LazyMembers: sim.Pick(r, []int{0, 0, 1, 2}), DEOps: i%3 == 0,
-			ReqPerBlockPct: sim.Pick(r, []int{30, 60}), ParamChanges: i%6 == 5,
+			ReqPerBlockPct: sim.Pick(r, []int{30, 60}), ParamChanges: i%3 == 2,
 		}
 	}, func(h *tssworld.Hist) []tssworld.Monitor {
 		return []tssworld.Monitor{tssworld.NewSigningMonitor(h), tssworld.NewDEMonitor()}
@@ -49,7 +49,7 @@ func main() {
 			}
 		}
 	})
-	for _, c := range []string{"final:SUCCESS", "final:FALLEN", "timeouts", "retries", "fallen:max-attempts", "penalised-members",
+	for _, c := range []string{"final:SUCCESS", "final:FALLEN", "timeouts", "retries", "fallen:max-attempts", "penalised-members", "signing-in-an-attempt-above-a-lowered-maximum",
 		"aggregation-and-expiry-same-block", "interim-clean-checked", "tx:member:activate:ok"} {
 		run.Require(c, 1)
 	}
